@@ -1,5 +1,13 @@
-from props.common import run_bounded
+from props.common import run_bounded, verify_keys
+
+KEYS = [
+    'parso.tree.Leaf.start_pos', 'parso.tree.Leaf.start_pos.setter', 'parso.tree.Leaf.end_pos',
+    'parso.python.tree._LeafWithoutNewlines.end_pos',
+    'parso.python.prefix.PrefixPart.end_pos', 'parso.python.prefix.PrefixPart.__init__',
+    'parso.python.prefix.PrefixPart.create_spacing_part',
+]
 
 
 def run(report):
+    verify_keys(report, KEYS)
     run_bounded(report, 'pos')
